@@ -41,7 +41,7 @@ def default_cfg(cls, N, rng, cplx, tone=False):
 ROUTES = ['fresh', 'data_assigned', 'data_inplace', 'data_refilled', 'sampling_assigned', 'nfft_assigned', 'scale_assigned',
           # histories through a NON-default representation (sides), staleness and the scale_by_freq toggle; all end in the default layout
           'sides_first', 'sides_then_stale', 'sides_same_after_stale', 'stale_then_scale_toggle', 'datatype_flip', 'sides_call_call',
-          'data_other_length', 'stale_then_reassign_all', 'sides_roundtrip', 'sides_chain']
+          'data_other_length', 'stale_then_reassign_all', 'sides_roundtrip', 'sides_chain', 'stale_sides_call', 'detrend_toggle']
 
 
 def pick_route(rng, p_fresh=0.5):
@@ -155,6 +155,20 @@ def via(make, x, NFFT, sampling, scale_by_freq, route='fresh', prev=None):
         if not np.iscomplexobj(x):
             p.sides = 'twosided'
         p.sides = 'default'
+    elif route == 'stale_sides_call':
+        # explicit computation, new data, a `sides` assignment BEFORE anything recomputes, explicit computation again
+        p = make(other, NFFT, sampling, scale_by_freq); p()
+        p.data = x
+        p.sides = _alt_sides(x, 0)
+        p()
+        p.sides = 'default'
+    elif route == 'detrend_toggle':
+        # another detrend setting used for one computation, then the original one restored
+        p = make(x, NFFT, sampling, scale_by_freq)
+        v0 = p.detrend
+        p.detrend = 'mean' if v0 != 'mean' else None
+        p()
+        p.detrend = v0
     elif route == 'sides_call_call':
         # explicit computations while a non-default representation is selected
         p = make(other, NFFT, sampling, scale_by_freq); p()
@@ -176,7 +190,10 @@ def route_consistency(make, x, NFFT, sampling, scale_by_freq, routes=None, rtol=
     for route in (routes or ROUTES[1:]):
         try:
             p = via(make, x, NFFT, sampling, scale_by_freq, route)
-            got = np.array(p.psd); f = np.asarray(p.frequencies(), dtype=float)
+            got = p.psd
+            if got is None:
+                bad.append((route, 'reading psd returns None')); continue
+            got = np.atleast_1d(np.array(got)); f = np.asarray(p.frequencies(), dtype=float)
         except Exception as e:
             try:
                 via(make, x, NFFT, sampling, scale_by_freq, 'data_assigned')       # is the OTHER record of the routes inside the estimator's domain at all?
@@ -189,6 +206,14 @@ def route_consistency(make, x, NFFT, sampling, scale_by_freq, routes=None, rtol=
             bad.append((route, 'frequencies() differs from the axis of a freshly constructed object (%d vs %d entries)' % (len(f), len(fref))))
         elif not np.all(np.isfinite(got)) or np.max(np.abs(got - ref)) > rtol * sc:
             bad.append((route, 'psd differs from a freshly constructed object with the same data and settings (max rel dev %.3g)' % (np.max(np.abs(got - ref)) / sc)))
+        else:
+            # the exposed model parameters too (ar, ma, rho, reflection, eigenvalues)
+            m0 = model_params(ref_obj); m1 = model_params(p)
+            for k in m0:
+                if k == 'weights':
+                    continue
+                if k not in m1 or m0[k].shape != m1[k].shape or np.max(np.abs(m0[k] - m1[k])) > max(rtol, 1e-9) * max(float(np.max(np.abs(m0[k]))), 1e-300):
+                    bad.append((route, 'the exposed model parameter .%s differs from a freshly constructed object with the same data and settings' % k)); break
     return bad
 
 
@@ -201,6 +226,8 @@ def class_route_stream(ctx, classes, prop_key, make_cfg=None, n_per_class=None):
         for cplx in (False, True):
             N = int(rng.integers(20, 41))
             x, kind = gen_data(rng, N, cplx, ['noise', 'tone', 'ar'][int(rng.integers(0, 3))])
+            if rng.integers(0, 2):
+                x = x + (1.5 + (0.75j if cplx else 0))          # a record with a mean (mean removal must not leak between computations)
             cfg = (make_cfg or default_cfg)(cls, N, rng, cplx)
             NFFT = N + 3 + ((ci + int(cplx)) % 2) + (2 * cfg.get('lag', 0) if cls == 'pcorrelogram' else 0) + (2 * cfg.get('order', 0) if cls == 'pminvar' else 0)
             if rng.integers(0, 3) == 0:
